@@ -116,8 +116,8 @@ class _Append:
     raises = ()
 
     def requires(self, avp):
-        return isinstance(avp, B.DiameterAVP) and avp_plen(view_vendor(avp), data_of(avp)) < MAX24 and \
-            unbe(self._header._length) + avp_plen(view_vendor(avp), data_of(avp)) < MAX24
+        return isinstance(avp, B.DiameterAVP) and avp_plen(view_vendor(avp), data_of(avp)) < MAX24 + 4 and \
+            (self._loaded or unbe(self._header._length) + avp_plen(view_vendor(avp), data_of(avp)) < MAX24)
 
     def ensures_appended_last(self, avp, old):
         # the whole list: the old elements in their order, then avp (nothing else touched)
@@ -202,6 +202,10 @@ class _Extend:
 
 
 # ------------------------------------------------------------------ __init__
+def init_hint2():
+    return True
+
+
 def init_inv(self, done, loaded):
     L0 = ghost_get("len0")
     return self._avps == done and self._loaded == loaded \
@@ -211,6 +215,11 @@ def init_inv(self, done, loaded):
 
 def init_hint(avps, done, rest):
     return use_lemma(cat_len, rest) and use_lemma(cat_len, done) and use_lemma(cat_len, avps)
+
+
+def init_loop_entry(self):
+    # at the loop the header is installed and nothing has been appended yet
+    return ghost_set("len0", unbe(self._header._length))
 
 
 def init_snapshot(header):
@@ -229,11 +238,12 @@ class _MInit:
             "avps": T.OneOf(T.NoneS, T.Seq(AVP_ELEM)),
             "loaded": T.Bool()}
     loops = {0: Loop(heap={"self._avps": T.Seq(AVP_ELEM), "self._header._length": T.Bytes(3)},
-                     vars={"idx": T.Int()}, open_dicts=("self",), inv=init_inv, hint=init_hint)}
+                     vars={"idx": T.Int()}, open_dicts=("self",), inv=init_inv, hint=init_hint,
+                     entry=init_loop_entry)}
     setup_spec = init_snapshot
 
-    def requires(header, avps):
-        return avps is None or (use_lemma(cat_len, avps) and ghost_get("len0") + slen(avps) < MAX24)
+    def requires(header, avps, loaded):
+        return avps is None or (use_lemma(cat_len, avps) and (loaded or ghost_get("len0") + slen(avps) < MAX24))
 
     def ensures_list_is_the_argument(self, avps):
         if avps is None:
